@@ -223,20 +223,21 @@ func (c *Ctx) VerifyFunc(pkgPath, key string) (rep *FuncReport) {
 			bindResults(renv, con, fn, fn.Signature, res)
 		}
 		rn := fmt.Sprintf("ret%d", r.idx)
-		if con.Trusted {
-			// a trusted contract listed for verification: its postconditions and frame stay assumptions (they speak about
-			// an abstraction the body does not mention); only its at-call clauses are checked on the body
-			continue
-		}
+		// a trusted contract listed for verification: its postconditions and frame stay assumptions (they speak about an
+		// abstraction the body does not mention); its at-call clauses, loop invariants and ensures-local clauses (which are
+		// never assumed by callers) are checked on the body
 		if len(con.Ensures) > 0 {
 			c.cover(rn, r.st)
 		}
 		for i, en := range con.Ensures {
+			if con.Trusted && !en.Local {
+				continue
+			}
 			g := fr.evalBool(en.Expr, r.st, fr.Entry, renv)
 			c.oblige(fr, "post", clauseName("", en, i)+"@"+rn, r.st, g, "postcondition: "+en.Src, r.pos)
 			c.Obs[len(c.Obs)-1].ClauseExpr = en.Expr
 		}
-		if con.ModSet {
+		if con.ModSet && !con.Trusted {
 			c.frameObligations(fr, con, r, rn, env)
 		}
 	}
